@@ -206,7 +206,13 @@ func (f *DB) Reload(path string, validationKey []byte, reloadTimeout time.Durati
 
 		// Validate newDBI
 		newDB := &DB{dbi: newDBI}
-		err = newDB.validateDbKeyOrDestroy(validationKey)
+		if newDBI != f.dbi {
+			err = newDB.validateDbKeyOrDestroy(validationKey)
+		} else {
+			// same backend (catch-up): it is still the served one, a failed
+			// validation must not close it
+			err = newDB.ValidateDbKey(validationKey)
+		}
 		if err != nil {
 			glog.Errorf("Key validation for New DBI failed, using old DB instead")
 			return f, err
